@@ -364,6 +364,8 @@ func groupSelectionSetForNodeField(ctx *PlanningContext, selectionSet ast.Select
 			}
 
 			var foundIDField *ast.Field
+			// __typename is answered by every service of the type
+			var typenameFields ast.SelectionSet
 			innerRes := make(map[string]ast.SelectionSet)
 
 			knownLocs, ok := ctx.TypeURLMap.GetForType(frag.TypeCondition)
@@ -377,6 +379,10 @@ func groupSelectionSetForNodeField(ctx *PlanningContext, selectionSet ast.Select
 					foundIDField = &tmp
 					continue
 				}
+				if childSel.Name == common.TypenameFieldName {
+					typenameFields = append(typenameFields, childSel)
+					continue
+				}
 				fieldLoc, err := ctx.GetURL(frag.TypeCondition, childSel.Name, common.InternalServiceName)
 				if err != nil {
 					return nil, nil, err
@@ -387,11 +393,11 @@ func groupSelectionSetForNodeField(ctx *PlanningContext, selectionSet ast.Select
 
 			for k, v := range innerRes {
 				newFrag := *frag
-				newFrag.SelectionSet = v
+				newFrag.SelectionSet = append(v, typenameFields...)
 				innerRes[k] = ast.SelectionSet{&newFrag}
 			}
 
-			// only id field is queried
+			// only id and __typename fields are queried
 			if len(innerRes) == 0 && len(knownLocs) > 0 {
 				innerRes[knownLocs[0]] = ast.SelectionSet{frag}
 			} else if foundIDField != nil {
